@@ -239,15 +239,18 @@ impl Driver for VecDriver {
         }
     }
 
+    fn epilogue(&self, sh: &VecShared, rec: &Recorder) {
+        rec.call("collect", Val::Unit, || sh.collect());
+    }
+
     fn spec(&self) -> serde_json::Value {
         serde_json::json!({"kind": "vec", "flavour": self.flavour, "start": self.start, "programs": self.programs})
     }
 
     fn check(&self, sh: &VecShared, x: &Execution) -> Result<String, (String, String)> {
-        let mut calls = x.calls.clone();
-        let end = x.steps.len() + 1;
-        // quiescent collect after all threads finished
-        calls.push(Call { thread: 99, name: "collect".into(), arg: Val::Unit, ret: sh.collect(), inv: end, res: end + 1 });
+        // the quiescent collect after all threads finished is made by the epilogue (thread 99)
+        let calls = x.calls.clone();
+        let _ = sh;
         let show = || calls.iter().map(|c| c.show()).collect::<Vec<_>>().join("; ");
         // structural checks that need no search
         for c in calls.iter().filter(|c| c.name == "collect") {
